@@ -19,4 +19,5 @@ pub mod runner;
 pub mod runner2;
 pub mod runner3;
 pub mod runner4;
+pub mod runner5;
 pub mod unproj;
